@@ -21,6 +21,7 @@ type BytesObj struct {
 	epoch int
 	tag   string // provenance label ("input", ...)
 	aliasOf *BytesObj // this object is a view into another buffer (decoder call-backs)
+	fromCell *Cell    // slice of an array variable (provenance)
 }
 
 type BytesV struct {
@@ -146,6 +147,9 @@ func (e *Engine) bytesFromRope(r Rope) BytesV {
 func (e *Engine) bytesRope(b BytesV) Rope {
 	if b.obj == nil {
 		return nil
+	}
+	if b.obj.fromCell != nil && e.pooled[b.obj.fromCell] {
+		e.goPanic("use of memory after it was handed back to a sync.Pool (shared with concurrent callers: data race)")
 	}
 	if b.off.isConst() && b.off.u64() == 0 && b.n == b.obj.cap {
 		return b.obj.rope
